@@ -35,7 +35,7 @@ import (
 
 const serverName = "dns.example"
 
-var ignoreLists = [][]string{nil, {"ignored.test"}, {"||ignored.test^"}, {"*.ignored.test"}, {"|.^"}}
+var ignoreLists = [][]string{nil, {"ignored.test"}, {"||ignored.test^"}, {"*.ignored.test"}, {"|.^"}, {"Ignored.TEST"}}
 
 type config struct {
 	QLogIgnore  []string `json:"querylog_ignore"`
@@ -198,6 +198,11 @@ func (e *env) runConfig(cf *config, reqs []request) {
 			cs.IDs = []string{"cid-a"}
 		}
 		sp.Clients = []srv.ClientSpec{cs}
+		if cf.Client == "cidr" {
+			// A wider network belongs to another client without ignore flags: the
+			// most specific containing CIDR identifies the client.
+			sp.Clients = append(sp.Clients, srv.ClientSpec{Name: "lan", IDs: []string{"10.0.0.0/8"}})
+		}
 	}
 	a, err := srv.Build(sp)
 	if err != nil {
@@ -424,6 +429,12 @@ func (e *env) restartPass() {
 		ignore  []string
 		reqs    []q
 		visible int // entries that must stay visible in phase 2
+		// anon2 switches anonymisation on in phase 2; disallowed2 is the access
+		// blocklist of phase 2; forbidden strings must not occur in the phase-2
+		// API answer.
+		anon2       bool
+		disallowed2 []string
+		forbidden   []string
 	}
 	scens := []scen{
 		{kind: "name", ignore: []string{"||ignored.test^"}, clients: func(bool) []srv.ClientSpec { return nil },
@@ -444,8 +455,16 @@ func (e *env) restartPass() {
 			return []srv.ClientSpec{{Name: "kid", IDs: []string{"cid-a"}}, {Name: "mum", IDs: []string{"cid-b"}, IgnoreQueryLog: ign}}
 		}, reqs: []q{{"a1.test", "cid-a", "10.0.0.1"}, {"b1.test", "cid-b", "10.0.0.1"}}, visible: 1},
 	}
+	// Records written with anonymisation off, then served with anonymisation on:
+	// nothing in the API answer may carry the full address (not only the
+	// "client" field: client_info, disallowed_rule, ...).
+	scens = append(scens, scen{kind: "anonymised-later", anon2: true, disallowed2: []string{"10.0.0.1", "2001:db8::1234:5678:9abc:def0"},
+		clients: func(bool) []srv.ClientSpec { return nil },
+		reqs:    []q{{"a.test", "", "10.0.0.1"}, {"b.test", "", "2001:db8::1234:5678:9abc:def0"}, {"c.test", "", "192.168.7.7"}}, visible: 3,
+		forbidden: []string{"10.0.0.1", "2001:db8::1234:5678:9abc:def0", "192.168.7.7"}})
 	for _, sc := range scens {
 		dir, _ := os.MkdirTemp(e.dir, "c08r-")
+		leak := ""
 		phase := func(second bool) (names []string) {
 			var findClient func(ids []string) (*querylog.Client, error)
 			qh := handlers{}
@@ -454,11 +473,24 @@ func (e *env) restartPass() {
 				ign = sc.ignore
 			}
 			eng, _ := aghnet.NewIgnoreEngine(ign)
-			ql, _ := querylog.New(querylog.Config{Logger: srv.Discard, Ignored: eng, Anonymizer: aghnet.NewIPMut(nil), ConfigModified: func() {}, HTTPRegister: qh.reg,
-				FindClient: func(ids []string) (*querylog.Client, error) { return findClient(ids) }, BaseDir: dir, RotationIvl: 24 * time.Hour, MemSize: 100, Enabled: true, FileEnabled: true})
+			anonOn := second && sc.anon2
+			var af aghnet.IPMutFunc
+			if anonOn {
+				af = querylog.AnonymizeIP
+			}
+			mut := aghnet.NewIPMut(af)
+			ql, _ := querylog.New(querylog.Config{Logger: srv.Discard, Ignored: eng, Anonymizer: mut, ConfigModified: func() {}, HTTPRegister: qh.reg,
+				FindClient: func(ids []string) (*querylog.Client, error) { return findClient(ids) }, BaseDir: dir, RotationIvl: 24 * time.Hour, MemSize: 100, Enabled: true, FileEnabled: true, AnonymizeClientIP: anonOn})
 			querylog.VerifC08InitWeb(ql)
-			sp := &srv.Spec{Mode: filtering.BlockingModeDefault, ProtectionEnabled: true, FilteringEnabled: true, QueryLog: ql, Clients: sc.clients(second),
-				Conf: func(sc *dnsforward.ServerConfig) { sc.TLSConf = &dnsforward.TLSConfig{ServerName: serverName} }}
+			var dis []string
+			if second {
+				dis = sc.disallowed2
+			}
+			sp := &srv.Spec{Mode: filtering.BlockingModeDefault, ProtectionEnabled: true, FilteringEnabled: true, QueryLog: ql, Clients: sc.clients(second), Anonymizer: mut,
+				Conf: func(c *dnsforward.ServerConfig) {
+					c.TLSConf = &dnsforward.TLSConfig{ServerName: serverName}
+					c.DisallowedClients = dis
+				}}
 			a, err := srv.Build(sp)
 			if err != nil {
 				panic(err)
@@ -491,6 +523,13 @@ func (e *env) restartPass() {
 			for _, d := range resp.Data {
 				names = append(names, d.Question.Name)
 			}
+			if second {
+				for _, f := range sc.forbidden {
+					if strings.Contains(string(body), `"`+f+`"`) {
+						leak = f
+					}
+				}
+			}
 			return names
 		}
 		n1 := phase(false)
@@ -500,6 +539,8 @@ func (e *env) restartPass() {
 		cs := caseC{Conf: config{Client: "restart:" + sc.kind}, Obs: fmt.Sprintf("recorded=%v visible-after-restart=%v", n1, n2)}
 		if len(n1) != len(sc.reqs) {
 			c.EngineError(fmt.Sprintf("restart pass %s: %d of %d entries recorded under the permissive configuration", sc.kind, len(n1), len(sc.reqs)))
+		} else if leak != "" {
+			c.Violation("address-not-anonymized:api-answer-after-switching-on", fmt.Sprintf("anonymisation is on but the API answer for records written earlier contains the full address %q (%s)", leak, cs.Obs), cs)
 		} else if len(n2) != sc.visible {
 			c.Violation("api-returns-currently-ignored:"+sc.kind, fmt.Sprintf("after a restart under a configuration that ignores the %s, the API must return %d of the %d entries recorded earlier, got %d (%s)", sc.kind, sc.visible, len(sc.reqs), len(n2), cs.Obs), cs)
 		}
